@@ -1,3 +1,4 @@
+import IpcModel.RecvSig
 import IpcModel.Interleave.Bridge
 import IpcModel.RecvAtt
 import IpcModel.Interleave.Att
@@ -109,5 +110,13 @@ example : (RecvAtt.feedAll ⟨true, true⟩ ⟨[], none, []⟩ ((routs (init 460
     [.s 0, .s 0, .s 0, .crash 0, .s 1, .s 1, .r, .r, .r, .r]).flatMap (evOf fun m => if m = 0 then [7, 8] else [1]))).out = [[1]] := by decide
 example : (RecvAtt.feedAll ⟨true, false⟩ ⟨[], none, []⟩ ((routs (init 4608 [13000, 100] [[0], [1]])
     [.s 0, .s 0, .s 0, .crash 0, .s 1, .s 1, .r, .r, .r, .r]).flatMap (evOf fun m => if m = 0 then [7, 8] else [1]))).out = [[7, 8, 1]] := by decide
+
+/-- **C12_sigchld_transparent** — a sender that dies raises `SIGCHLD` in its parent; when the parent is the receiver and is reassembling another sender's
+message, its read of the next fragment is cut short (`EINTR`).  For the code as it is (retry, and the buffer length put back
+after every read — both regenerated) the survivor's message comes out exactly as without the signal, however often that happens. -/
+theorem C12_sigchld_transparent {α : Type} (sys total : Nat) (buf : List α) (answers : List (RecvSig.Ans α)) (eof : Bool) :
+    RecvSig.loop Gen.shape_followupRetriesEintr sys total buf answers eof Gen.shape_followupRestoresLen
+      = RecvSig.embed (Frag.recvFollow sys total buf (RecvSig.strip answers) eof) := by
+  rw [RecvSig.code_retries.1, RecvSig.code_retries.2]; exact RecvSig.loop_retry sys total buf answers eof
 
 end C12
